@@ -1029,10 +1029,11 @@ fn gen_dim(rng: &mut Rng) -> Vec<u8> {
 }
 
 fn gen_xlsmc(rng: &mut Rng) -> Vec<u8> {
-    let n = match rng.below(10) {
-        0 => 0,
-        1 => rng.range(9, 40),
-        2 => 1027,
+    let n = match rng.below(100) {
+        0..=9 => 0,
+        10..=19 => rng.range(9, 40),
+        20 => 1027,
+        21 => rng.range(41, 1027),
         _ => rng.range(1, 8),
     } as usize;
     let l: Vec<[u32; 4]> = (0..n)
@@ -1170,10 +1171,11 @@ fn gen_xls(rng: &mut Rng) -> XlsSpec {
         }
         let nrec = *rng.pick(&[0u64, 1, 1, 1, 2, 3]);
         for _ in 0..nrec {
-            let n = match rng.below(12) {
-                0 => 0,
-                1 => 1027,
-                2 => rng.range(9, 60),
+            let n = match rng.below(60) {
+                0..=4 => 0,
+                5 => 1027,
+                6 => rng.range(61, 1027),
+                7..=11 => rng.range(9, 60),
                 _ => rng.range(1, 8),
             };
             let l: Vec<[u32; 4]> = (0..n)
@@ -1388,35 +1390,19 @@ fn main() {
         if sat_dim { "saturating" } else { "checked (panics under overflow-checks)" }
     ));
     rep.count(&format!("mode.{mode}"));
-    let mut cases: Vec<Case> = vec![];
-    if let Some(inp) = &args.replay {
-        cases.push(Case::parse(inp));
-    } else {
-        for c in corpus() {
-            cases.push(Case::parse(&c));
-        }
-        let n = args.count(2000, 100_000);
-        let mut rng = Rng::new(args.seed);
-        for i in 0..n {
-            // per file-level case: 4 unit cases of each kind
-            cases.push(if i % 5 < 3 { Case::Xlsx(gen_xlsx(&mut rng)) } else { Case::Xls(gen_xls(&mut rng)) });
-            for _ in 0..4 {
-                cases.push(Case::Dim(gen_dim(&mut rng)));
-                cases.push(Case::XlsMc(gen_xlsmc(&mut rng)));
-            }
-        }
-    }
+    // one case evaluated: (case, outcome, microseconds)
     let mut shrunk = 0;
-    for case in cases {
-        let out = eval(&case, &mut drv, &mode);
+    let mut record = |case: Case, out: Outcome, us: u64, rep: &mut Report, drv: &mut Driver| {
         let text = case.text();
         rep.case(&text, out.nontrivial);
-        rep.count(match &case {
-            Case::Dim(_) => "case.dim",
-            Case::XlsMc(_) => "case.xlsmc",
-            Case::Xlsx(_) => "case.xlsx",
-            Case::Xls(_) => "case.xls",
-        });
+        let kind = match &case {
+            Case::Dim(_) => "dim",
+            Case::XlsMc(_) => "xlsmc",
+            Case::Xlsx(_) => "xlsx",
+            Case::Xls(_) => "xls",
+        };
+        rep.count(&format!("case.{kind}"));
+        rep.add(&format!("time_us.{kind}"), us);
         for c in &out.counters {
             rep.count(c);
         }
@@ -1427,14 +1413,65 @@ fn main() {
             }
             if shrunk < 16 && matches!(case, Case::Xlsx(_) | Case::Xls(_)) {
                 shrunk += 1;
-                let small = shrink(case.clone(), kind, sig, &mut drv, &mode);
-                let o2 = eval(&small, &mut drv, &mode);
+                let small = shrink(case.clone(), kind, sig, drv, &mode);
+                let o2 = eval(&small, drv, &mode);
                 if let Some(f) = o2.fails.iter().find(|f| &f.0 == kind && &f.1 == sig) {
                     rep.fail(kind, sig, &small.text(), &f.2, &f.3, &f.4);
                     continue;
                 }
             }
             rep.fail(kind, sig, &text, i, m, e);
+        }
+    };
+    if let Some(inp) = &args.replay {
+        let case = Case::parse(inp);
+        let out = eval(&case, &mut drv, &mode);
+        record(case, out, 0, &mut rep, &mut drv);
+    } else {
+        for c in corpus() {
+            let case = Case::parse(&c);
+            let out = eval(&case, &mut drv, &mode);
+            record(case, out, 0, &mut rep, &mut drv);
+        }
+        // random cases: SHARDS independent streams (own PRNG, own driver process), evaluated in parallel;
+        // the set of cases depends on the seed only, not on scheduling
+        const SHARDS: u64 = 8;
+        let n = args.count(2000, 100_000);
+        let (tx, rx) = std::sync::mpsc::sync_channel::<(Case, Outcome, u64)>(256);
+        let mut handles = vec![];
+        for sh in 0..SHARDS {
+            let tx = tx.clone();
+            let driver = args.driver.clone();
+            let mode = mode.clone();
+            let seed = args.seed;
+            let my_n = n / SHARDS + if sh < n % SHARDS { 1 } else { 0 };
+            handles.push(std::thread::spawn(move || {
+                let mut drv = Driver::spawn(&driver);
+                let mut rng = Rng::new(seed.wrapping_mul(1_000_003).wrapping_add(sh));
+                let mut send = |case: Case, drv: &mut Driver| {
+                    let t0 = std::time::Instant::now();
+                    let out = eval(&case, drv, &mode);
+                    let _ = tx.send((case, out, t0.elapsed().as_micros() as u64));
+                };
+                for i in 0..my_n {
+                    // per file-level case: 4 unit cases of each kind
+                    let c = if i % 5 < 3 { Case::Xlsx(gen_xlsx(&mut rng)) } else { Case::Xls(gen_xls(&mut rng)) };
+                    send(c, &mut drv);
+                    for _ in 0..4 {
+                        send(Case::Dim(gen_dim(&mut rng)), &mut drv);
+                        send(Case::XlsMc(gen_xlsmc(&mut rng)), &mut drv);
+                    }
+                }
+                drv.requests
+            }));
+        }
+        drop(tx);
+        for (case, out, us) in rx {
+            record(case, out, us, &mut rep, &mut drv);
+        }
+        for h in handles {
+            let r = h.join().expect("shard thread");
+            rep.add("driver_requests", r);
         }
     }
     rep.add("driver_requests", drv.requests);
